@@ -54,6 +54,7 @@ func init() {
 			add(qast.TreeUnits("tree|full|1|var", len(treeSet("full0")), 1), 1)
 			add(qast.TreeUnits("tree|c05x|1|var", len(treeSet("c05x0")), 1), 1)
 			add(qast.TreeUnits("tree|small6|2|var", len(treeSet("small1")), 8), 2)
+			add([]string{"args"}, 2)
 			if tier == "thorough" {
 				add(qast.TreeUnits("tree|three|3|min", len(treeSet("three2")), 120), 5)
 				add(qast.TreeUnits("tree|two|3|var", len(treeSet("two2")), 64), 4)
@@ -67,7 +68,7 @@ func init() {
 		Eval:   c05Eval,
 		Shrink: c05Shrink,
 		Rule: "TREE(L_full,2) printed minimally; TREE(L_full,1) ∪ TREE(L_small,2) also with one redundant pair of parentheses at each node in turn, fully parenthesised, and written compactly (no space next to a symbol token); " +
-			"CHAIN(k) over every leaf; SPINE(m) over 2 leaves; thorough adds TREE(L_3,3) and variants on TREE(L_2,3). " +
+			"TREE(L_4,2) with ^ and ~ carrying 11 numeric argument spellings; CHAIN(k) over every leaf; SPINE(m) over 2 leaves; thorough adds TREE(L_3,3) and variants on TREE(L_2,3). " +
 			"non-trivial = Parse accepted the printed text; distinct = distinct accepted trees",
 		Assumptions: []string{
 			"the printer parenthesises wherever the documented table leaves a grouping open, so only groupings the table fixes are demanded",
@@ -151,6 +152,13 @@ func c05Run(w *core.Worker, tier, unit string) {
 		leaves, sub := treeUnitSets(unit)
 		mode, eu := stripTreeUnit(unit)
 		qast.EnumTreeUnit(eu, leaves, sub, func(t *qast.Node) { do(t, mode == "var") })
+	case unit == "args":
+		// the numeric argument of ^ and ~ in every spelling (several decimals, below 0.05, two
+		// digits, trailing zero), under and over the other unary operators
+		leaves := append(qast.LeavesSmall(3), qast.Lf(qast.Leaf{Kind: qast.LTerm, Val: qast.Q("q r")}))
+		for _, t := range qast.AllTreesU(leaves, c05ArgForms, 2) {
+			do(t, true)
+		}
 	case strings.HasPrefix(unit, "chain|"):
 		k, _ := strconv.Atoi(strings.Split(unit, "|")[1])
 		for _, l := range qast.LeavesFull() {
@@ -164,6 +172,13 @@ func c05Run(w *core.Worker, tier, unit string) {
 	default:
 		panic("bad unit " + unit)
 	}
+}
+
+var c05ArgForms = []qast.UForm{
+	{Op: qast.ONot}, {Op: qast.OMust}, {Op: qast.OMustN},
+	{Op: qast.OBoost, Arg: "1.25"}, {Op: qast.OBoost, Arg: "2.75"}, {Op: qast.OBoost, Arg: "0.04"}, {Op: qast.OBoost, Arg: "10"},
+	{Op: qast.OBoost, Arg: "0.5"}, {Op: qast.OBoost, Arg: "3.0"}, {Op: qast.OBoost, Arg: "100.125"},
+	{Op: qast.OFuzzy, Arg: "0"}, {Op: qast.OFuzzy, Arg: "1"}, {Op: qast.OFuzzy, Arg: "10"}, {Op: qast.OFuzzy, Arg: "25"},
 }
 
 func c05Eval(c core.Case) (res core.Result) {
